@@ -26,6 +26,8 @@ static const entry_t pool[] = {
     {"R:TXT?", "rT,61226222/rT,2d"}, {"R:BLK?", "rK,0001020a0d3b"}, {"R:BLK0?", "rK,-"}, {"R:BH?", "rKH,4/rKD,6162/rKD,6364"}, {"R:BOVER?", "rKH,2/rKD,616263/rKD,6162"},
     {"R:ARR?", "rA,2,0,00010203"}, {"R:ARRS?", "rA,4,1,0102030405060708"}, {"R:ARR0?", "rA,2,0,-/rI,32,1,5,a"}, {"R:ARR1?", "rA,1,0,414243"}, {"R:FOUR?", "rI,32,1,1,a/rB,1/rT,78/rC,4142"},
     {"R:DBL?", "rF,1,3ff8000000000000,312e35"}, {"R:FLT?", "rF,0,40490fdb,332e3134313539"},
+    /* misuse of the streaming block calls: a block left unfinished, data without a header of its own */
+    {"R:BOPEN?", "rKH,a/rKD,61626364"}, {"R:BTAIL?", "rKD,555657"},
 };
 #define NPOOL ((int)(sizeof pool / sizeof pool[0]))
 
@@ -131,6 +133,19 @@ static void gen_plain(int lo, int hi, int tcount, int maxunits, int bad_pct, int
     n = pick_table(idx, lo, hi, tcount);
     build_table(table, idx, n);
     k = (size_t) sprintf(line, "%s %d %d %s", tag, bufsize, qcap, table);
+    if (h_chance(8)) {
+        /* history: a terminated message and an UNTERMINATED one arrive in one call; a zero-length call executes the second.
+         * Its last parameter must be delivered as written, not glued to what the first message left behind it */
+        static char both[8400]; size_t l1 = gen_message(both, idx, n, maxunits, bad_pct, with_params), l2;
+        while (l1 && (both[l1 - 1] == '\n' || both[l1 - 1] == '\r')) l1--;
+        both[l1++] = '\n';
+        l2 = gen_message(both + l1, idx, n, 1, bad_pct, with_params);
+        while (l2 && (both[l1 + l2 - 1] == '\n' || both[l1 + l2 - 1] == '\r' || both[l1 + l2 - 1] == ' ')) l2--;
+        if ((size_t) bufsize <= l1 + l2 + 1) { k = (size_t) sprintf(line, "%s %d %d %s", tag, (int)(l1 + l2 + 2 + h_below(30)), qcap, table); }
+        line[k++] = ' '; k += chunk_hex(line + k, both, l1 + l2); k += (size_t) sprintf(line + k, " -");
+        emit_case(line);
+        return;
+    }
     for (m = 0; m < msgs; m++) {
         size_t ml = gen_message(msg, idx, n, maxunits, bad_pct, with_params), off = 0;
         while (off < ml) {
@@ -202,6 +217,29 @@ void dom_p09(void) {
         ml = gen_message(msg, idx, n, 4, 8, 1);
         if (ml && msg[ml - 1] != '\n' && msg[ml - 1] != '\r') msg[ml++] = '\n';
         line[k++] = ' '; k += chunk_hex(line + k, msg, ml);
+        line[k] = 0;
+        emit_case(line);
+    }
+}
+
+/* PU: unit isolation (second sentence of C09): unit 2 as the second unit of one message behind unit 1, against unit 2 alone
+ * on a fresh context that has the registers and queue unit 1 leaves */
+void dom_p09u(void) {
+    unsigned long cnt = h_thorough ? 300000 : 30000;
+    static char line[70000], table[20000], u1[4096], u2[4096]; int idx[24], n;
+    for (; cnt; cnt--) {
+        size_t k, l1, l2;
+        n = pick_table(idx, 0, NPOOL, 8 + (int) h_below(12));
+        if (h_chance(25)) { idx[0] = NPOOL - 2; idx[1] = NPOOL - 1; }            /* the two block-misuse entries together */
+        build_table(table, idx, n);
+        l1 = gen_message(u1, idx, n, 1, 8, 1);
+        while (l1 && (u1[l1 - 1] == '\n' || u1[l1 - 1] == '\r')) l1--;
+        u2[0] = ':'; l2 = 1 + gen_message(u2 + 1, idx, n, 1, 8, 1);
+        while (l2 && (u2[l2 - 1] == '\n' || u2[l2 - 1] == '\r')) l2--;
+        if (u2[1] == ':' || u2[1] == '*') { memmove(u2, u2 + 1, l2); l2--; }    /* already absolute / common */
+        if (l2 == 0) continue;
+        k = (size_t) sprintf(line, "PU 256 %d %s ", h_chance(80) ? 16 : 2, table);
+        k += chunk_hex(line + k, u1, l1); k += (size_t) sprintf(line + k, " | "); k += chunk_hex(line + k, u2, l2);
         line[k] = 0;
         emit_case(line);
     }
@@ -341,11 +379,11 @@ static size_t p17_script(char *script, size_t cap, int allow_headerless) {
         unsigned kind = h_below(allow_headerless ? 11 : 10), len = h_chance(70) ? h_below(12) : h_below(301), i;
         if (o) script[k++] = '/';
         if (kind < 3) {                                       /* whole block */
-            k += (size_t) sprintf(script + k, "rK,"); if (!len) script[k++] = '-';
+            k += (size_t) sprintf(script + k, "rK,"); if (!len) script[k++] = h_chance(50) ? 'N' : '-';
             for (i = 0; i < len; i++) k += (size_t) sprintf(script + k, "%02x", h_below(256));
         } else if (kind < 6) {                                /* array: size, format, elements */
             unsigned sz = 1u << h_below(4), cnt = h_chance(15) ? 0 : 1 + h_below(h_chance(80) ? 6 : 37);
-            k += (size_t) sprintf(script + k, "rA,%u,%u,", sz, h_below(2)); if (!cnt) script[k++] = '-';
+            k += (size_t) sprintf(script + k, "rA,%u,%u,", sz, h_below(2)); if (!cnt) script[k++] = h_chance(50) ? 'N' : '-';
             for (i = 0; i < cnt * sz; i++) k += (size_t) sprintf(script + k, "%02x", h_below(256));
         } else if (kind < 9) {                                /* streamed: header then data chunks */
             unsigned sent = 0, target = len, mode = h_below(5);   /* 0 exact, 1 short, 2 over-length chunk then rest, 3 zero-length chunks, 4 exact */
@@ -354,11 +392,11 @@ static size_t p17_script(char *script, size_t cap, int allow_headerless) {
             while (sent < target) {
                 unsigned c = 1 + h_below(target - sent), j;
                 if (mode == 2 && h_chance(40)) { k += (size_t) sprintf(script + k, "/rKD,"); for (j = 0; j < (len - sent) + 1 + h_below(3); j++) k += (size_t) sprintf(script + k, "%02x", h_below(256)); mode = 0; }
-                if (mode == 3 && h_chance(30)) k += (size_t) sprintf(script + k, "/rKD,-");
+                if (mode == 3 && h_chance(30)) k += (size_t) sprintf(script + k, "/rKD,%c", h_chance(50) ? 'N' : '-');
                 k += (size_t) sprintf(script + k, "/rKD,"); for (j = 0; j < c; j++) k += (size_t) sprintf(script + k, "%02x", h_below(256));
                 sent += c;
             }
-            if (len == 0 && h_chance(70)) k += (size_t) sprintf(script + k, "/rKD,-");
+            if (len == 0 && h_chance(70)) k += (size_t) sprintf(script + k, "/rKD,%c", h_chance(50) ? 'N' : '-');
         } else if (kind == 9) k += (size_t) sprintf(script + k, "rI,32,1,%x,10", h_below(1000));
         else {                                                /* data without a header of its own: must be refused whatever an earlier unit left open */
             unsigned c = 1 + h_below(8), j;
